@@ -10,7 +10,7 @@ ID = "C21"
 ENGINE = "B"
 TECHNIQUE = "cycle-accurate method driver against an ideal array + per-port pending-response list"
 RULE = (
-    "case = (transparent, read_on_resp, 1-2 read ports, 1-2 write ports, depth 2..9, width 1..8, granularity "
+    "case = (transparent, read_on_resp, 1-2 read ports, 1-2 write ports, depth 2..9 (sometimes 12, 16, 17), width 1..8, granularity "
     "None|divisor of width, memory_type Memory|MultiReadMemory (1 write port)|MultiportXORMemory (no granularity)|"
     "MultiportXORILVTMemory|MultiportOneHotILVTMemory, history of per-cycle request vectors read_req/read_resp/write "
     "with selectors that aim writes at rows with pending responses and reads at rows written in the same/previous "
@@ -41,17 +41,24 @@ def strategy(draw, tier="quick"):
     ror = draw(st.booleans())
     nr = draw(st.integers(1, 2))
     nw = draw(st.sampled_from([1, 1, 2, 2, 3]))
-    depth = draw(st.integers(max(2, nw), 9))
+    depth = draw(st.one_of(st.integers(max(2, nw), 9), st.integers(max(2, nw), 9), st.sampled_from([12, 16, 17])))
     width, gran = draw(st.sampled_from(SHAPES))
     elem = None
     if draw(st.integers(0, 3)) == 0:
         width, gran, elem = draw(st.sampled_from(ELEM_SHAPES))
-    kinds = ["Memory", "Memory", "Memory", "XORILVT", "OneHotILVT"]
+    kinds = ["Memory", "Memory", "XORILVT", "OneHotILVT"]
+    if nw >= 2:
+        kinds += ["XORILVT", "OneHotILVT"]  # several write ports are what the ILVT variants are for
     if nw == 1:
         kinds += ["MultiRead", "MultiRead"]
     if gran is None:
         kinds += ["XOR", "XOR"]
     mtype = draw(st.sampled_from(kinds))
+    if mtype in ("XORILVT", "OneHotILVT") and gran is not None and draw(st.integers(0, 2)) != 0:
+        # the ILVT memories with a write granularity are the region of known findings (partial writes there are
+        # attributed to them), so most ILVT cases use whole-word writes, where every mismatch is a new violation
+        width, gran = draw(st.sampled_from([sh for sh in SHAPES if sh[1] is None]))
+        elem = None
     g = granules(width, gran)
     methods = {}
     for i in range(nr):
@@ -158,6 +165,11 @@ def run_case(case) -> Result:
                     mode, sel = a
                     if mode == 2 and taken:
                         addr = taken[sel % len(taken)]
+                    elif mode == 1 and (last_waddrs or taken):
+                        # a row whose address differs from a just-written row only above the low 1-3 address bits
+                        src = last_waddrs or taken
+                        base = src[sel % len(src)]
+                        addr = (base + ((1 + (sel >> 5) % 3) << (1 + (sel >> 3) % 3))) % depth
                     elif mode == 3 and last_waddrs:
                         addr = last_waddrs[sel % len(last_waddrs)]
                     else:
